@@ -75,7 +75,7 @@ def extra_checks(ctx):
 if __name__ == '__main__':
     sys.path.insert(0, os.path.dirname(os.path.abspath(__file__)))
     e1check.run(dict(
-        prop='C14', props=['C14', 'C14q'], model='stop', harness='e1/stop.cpp', bin='e1_stop', gen=gen, nontrivial=nontrivial, stats=stats,
+        prop='C14', props=['C14', 'C14q', 'C14t'], model='stop', harness='e1/stop.cpp', bin='e1_stop', gen=gen, nontrivial=nontrivial, stats=stats,
         quick=3000, thorough=120000, extra=8000,
         extra_check=extra_checks,
         rule='(a) random programs (2-4 logical threads on plain OS threads or pika tasks, 2-6 operations each over request_stop / stop_callback construction / destruction / stop_requested+stop_possible query / stop_source copy+destroy, 2-6 callbacks whose bodies deregister themselves or others, register further callbacks or call request_stop) on one stop state under PRNG schedules (uniform / priority / sticky); non-trivial = request_stop dequeued a registered callback or a CAS on the state word failed; distinct = distinct (program, schedule seed) text. (b) random sequential histories of stop_source / stop_token special members, compared line by line with the Lean model. (c) live runtime: harness/e2/stop_live.cpp, scenario A (request_stop on a pika task whose callback suspends it while another pika task on the same worker OS thread destroys the stop_callback) and scenario B (the task is stolen by another worker inside the callback and destroys its own stop_callback), PRNG-chosen numbers of callbacks, yields and destroyer tasks; observable monitors only',
